@@ -34,7 +34,8 @@ RULE = ("exhaustive small scope: every cell x radius 1..3 (thorough 1..5) x incl
         "on every Moore/von Neumann grid with <= 3 axes of size <= 4 (quick: 3 axes <= 3; thorough adds 4 axes <= 3) and hex grids "
         "<= 6x6, torus on/off, in two query orders (ascending positional / descending keyword calls, so memo tables are hit in both "
         "directions); plus random scenarios: grids with 1-4 axes biased to sizes 1 and 2, hex, Network on random graphs <= 12 nodes incl. "
-        "isolated nodes and some DiGraphs, VoronoiGrid on 3-9 integer points; 8-40 queries + 50% repeated, shuffled; radius 0 and "
+        "isolated nodes and some DiGraphs, VoronoiGrid on 3-9 integer points; 8-40 queries + 50% repeated, shuffled (4%: the neighbourhood used as a CellCollection: cells, len, "
+        "in, select, select_random_cell by position); radius 0 and "
         "non-cells are rejected; 35% of the random scenarios and a built-in sweep (every ordered cell pair of five small spaces: "
         "all queries, connect, all queries, disconnect, all queries) edit connections between the queries with Cell.connect / "
         "Cell.disconnect (existing / new / default keys); answers sorted (the property speaks of sets); non-trivial = >= 5 neighbourhood queries with a "
